@@ -1,7 +1,25 @@
 // C11 leaf predicates of the 2D Boolean sweep (boolean2_sweep.cpp, anonymous
 // namespace - reached by including the source file) and the shared kernels.
+#include <algorithm>
+#include <cmath>
+#include <cstdint>
+#include <cstdlib>
+#include <map>
+#include <set>
+#include <utility>
+#include <vector>
+#include <atomic>
+#include <memory>
+#include <functional>
+#include <mutex>
+#include <numeric>
+#include <limits>
 #include "vf_harness.h"
+#include "boolean2.h"
+#include "shared.h"
+#define private public   // SweepPass::Classify is a private member
 #include "boolean2_sweep.cpp"
+#undef private
 using namespace manifold;
 #ifndef VF_BND
 #define VF_BND 1e100
@@ -56,5 +74,40 @@ extern "C" void h_oninterior() {
   if (got) VF_ASSERT(want);  // never a false positive (exact equality only)
   // no false negative when the interpolation is exact: axis-aligned segments
   if (want && (ax == bx || ay == by)) VF_ASSERT(got);
+  VF_END();
+}
+
+// SweepPass::Classify - where does event point p lie relative to status edge e
+// (l = processed end, r = pending end)?  Spec on the lattice, exact integer
+// oracle: ENDS at the pending end; for a non-vertical edge over p.x the sign of
+// the orientation decides UNDER/OVER, and p on the edge's processed end (or
+// anywhere the interpolation is exact: endpoints) is ON; vertical edges by
+// their y-range.
+extern "C" void h_classify() {
+  const int lx = vf_range(-VF_R, VF_R), ly = vf_range(-VF_R, VF_R), rx = vf_range(-VF_R, VF_R), ry = vf_range(-VF_R, VF_R);
+  const int px = vf_range(-VF_R, VF_R), py = vf_range(-VF_R, VF_R);
+  vf_assume(lx != rx || ly != ry);
+  SweepPass sp(WindRule::Add, SweepMode::Arrangement);
+  SweepEdge e{vec2(lx, ly), vec2(rx, ry), 1, 0};
+  const Side got = sp.Classify(e, vec2(px, py));
+  if (px == rx && py == ry) {
+    VF_ASSERT(got == Side::ENDS);
+  } else if (lx != rx) {
+    // non-vertical: orient the edge left to right
+    const int ax = lx < rx ? lx : rx, ay = lx < rx ? ly : ry, bx = lx < rx ? rx : lx, by = lx < rx ? ry : ly;
+    if (px >= ax && px <= bx) {
+      const long cross = (long)(bx - ax) * (py - ay) - (long)(by - ay) * (px - ax);  // > 0: p above the edge
+      if (cross > 0) VF_ASSERT(got == Side::UNDER);   // the edge passes under p
+      if (cross < 0) VF_ASSERT(got == Side::OVER);
+      if (px == lx && py == ly) VF_ASSERT(got == Side::ON);  // p is the edge's own processed end
+    }
+  } else if (px == lx) {
+    // vertical edge through p.x
+    const int ylo = ly < ry ? ly : ry, yhi = ly < ry ? ry : ly;
+    if (px == lx && py == ly) VF_ASSERT(got == (ry > py ? Side::OVER : Side::UNDER));
+    else if (yhi <= py) VF_ASSERT(got == Side::UNDER);
+    else if (ylo >= py) VF_ASSERT(got == Side::OVER);
+    else VF_ASSERT(got == Side::ON);
+  }
   VF_END();
 }
